@@ -172,8 +172,9 @@ def site(body, bb):
     return f"{body.loc(bb)} ({short(body.name)} bb{bb})"
 
 
-def enumerate_paths(body, limit=20000, start=0, stop_at=None):
-    """P6: acyclic paths start -> return; yields (list of edges). Back edges are cut (each block at most once per path)."""
+def enumerate_paths(body, limit=20000, start=0, stop_at=None, within=None):
+    """P6: acyclic paths start -> return; yields (list of edges). Back edges are cut (each block at most once per path). With `within`, only paths that
+    stay inside that set of blocks (plus the stop blocks) are followed - for questions local to a region of a large view."""
     out = []
     count = [0]
 
@@ -187,6 +188,8 @@ def enumerate_paths(body, limit=20000, start=0, stop_at=None):
             return
         for e in body.succ.get(bb, ()):
             if e.dst in visited:
+                continue
+            if within is not None and e.dst not in within and not (stop_at is not None and e.dst in stop_at):
                 continue
             path.append(e)
             visited.add(e.dst)
@@ -359,6 +362,7 @@ def ret_origins(body, path, start=0):
 
 
 def is_const_ret(ret, v):
+    ret = _const_on_path(ret)
     return len(ret) == 1 and ret[0][0] == "const" and ret[0][1] == v
 
 
@@ -470,12 +474,21 @@ def cond_is_remove_result(field):
     return lambda d: d[0] == "call" and d[1].endswith("::remove") and d[2] and atom_has_field(d[2][0], field, "TargetActorHelper")
 
 
-def cond_len_eq_one(field):
+def cond_len_eq_one(field, kind=None):
+    """`helper.<field>[K].len() == 1`; with `kind` given, K must be that execution kind ('*': the kind carried by the message being handled)"""
+    def kind_ok(at):
+        if kind is None:
+            return True
+        ks = atom_aggs(at, "ExecutionKind")
+        if kind == "*":
+            return not ks and any(a[0] == "field" and a[2] == "kind" for a in at)
+        return ks == {kind}
+
     def p(d):
         if d[0] != "binop" or d[1] != "Eq":
             return False
         sides = [d[2], d[3]]
-        has_len = any(any(y[0] == "call" and y[1].endswith("::len") and y[2] and atom_has_field(y[2][0], field, "TargetActorHelper") for y in s if isinstance(y, tuple)) for s in sides)
+        has_len = any(any(y[0] == "call" and y[1].endswith("::len") and y[2] and atom_has_field(y[2][0], field, "TargetActorHelper") and kind_ok(y[2][0]) for y in s if isinstance(y, tuple)) for s in sides)
         has_one = any(any(y[0] == "const" and y[1].startswith("1") for y in s if isinstance(y, tuple)) for s in sides)
         return has_len and has_one
     return p
@@ -534,6 +547,14 @@ def paths_within(body, region, target, limit=5000):
     return out
 
 
+def _const_on_path(po):
+    """a value that, on this path, is a constant returned by a spliced-in callee is reported as [call marker, const]: for feasibility only the constant counts"""
+    consts = [o for o in po if o[0] == "const"]
+    if len(consts) == 1 and all(o[0] in ("const", "call") for o in po):
+        return consts
+    return po
+
+
 def feasible_path(body, p, start=None):
     """False when the path is contradictory on its face: the same once-assigned bool tested both ways, or a flag that was assigned a constant on this
     very path tested the other way (e.g. a predicate helper spliced into the view returned `true` and its caller took the `false` branch)"""
@@ -546,7 +567,7 @@ def feasible_path(body, p, start=None):
             if src in seen_pol and seen_pol[src] != l[1]:
                 return False
             seen_pol[src] = l[1]
-            po = path_origins(body, blocks, l[2], i)
+            po = _const_on_path(path_origins(body, blocks, l[2], i))
             if len(po) == 1 and po[0][0] == "const" and po[0][1] in ("true", "false") and (po[0][1] == "true") != l[1]:
                 return False
     return True
@@ -570,7 +591,7 @@ def decisions_to(body, region, target, allowed):
                     break
                 seen_pol[src] = l[1]
                 # a flag assigned a constant earlier on this very path (`let c = a && b` assigns `false` where a is false) cannot be taken the other way
-                po = path_origins(body, blocks, l[2], i)
+                po = _const_on_path(path_origins(body, blocks, l[2], i))
                 if len(po) == 1 and po[0][0] == "const" and po[0][1] in ("true", "false") and (po[0][1] == "true") != l[1]:
                     feasible = False
                     break
